@@ -73,6 +73,7 @@ impl Reporter {
                 }
             }
         }
+        let _ = std::fs::remove_dir_all(format!("{VERIF_ROOT}/replays/{property}"));
         Reporter {
             property: property.to_string(),
             tier: tier.to_string(),
